@@ -39,7 +39,7 @@ pub fn gen_const(r: &mut Rng, u: &Universe) -> Unifiable {
         6 => SFloat(1.0),
         _ => {
             if u.odd_floats && r.chance(1, 2) { if r.chance(1,2) { SFloat(f64::NAN) } else { SFloat(-0.0) } }
-            else if r.chance(1,3) { SFloat(0.0) } else { SFloat(2.5) }
+            else if r.chance(1,3) { SFloat(0.0) } else if r.chance(1,3) { r.pick(&[SFloat(0.3), SFloat(0.1 + 0.2), SFloat(0.7), SFloat(1e-20)]).clone() } else { SFloat(2.5) }
         },
     }
 }
@@ -118,6 +118,8 @@ pub fn mutate(r: &mut Rng, u: &Universe, t: &Unifiable, depth: usize) -> Unifiab
             let tail2 = if e2.is_empty() { None } else { tail2 };
             proper_list(e2, tail2)
         },
+        // a float: sometimes the neighbouring double (a different constant, however close)
+        Unifiable::SFloat(x) if x.is_finite() && r.chance(1, 3) => SFloat(f64::from_bits(x.to_bits() + 1)),
         _ => if r.chance(1, 2) { var(1 + r.below(u.nvars)) } else { t.clone() },
     }
 }
